@@ -734,5 +734,90 @@ Proof.
   - constructor; cbn; auto.
     + intros _. apply B. match goal with E : alive i0 = true |- _ => rewrite E end. reflexivity.
 Qed.
+
+Lemma state_inst s th i s0 s' x : step_state s th i s0 = Some s' -> get i (insts s) = Some x ->
+  exists x', get i (insts s') = Some x' /\ nm x' = nm x /\ alive x' = alive x /\ exited x' = exited x /\ l_runctx x' = l_runctx x /\
+    ((pc x' = pc x /\ l_done x' = l_done x /\ (s0 = SPending -> exists t, pc x = IDeps t) /\
+      (s0 = SPending \/ s0 = STerminating)) \/
+     (pc x' = pc x /\ l_done x' = true /\ spc (get_thread s th) = SPendE i /\ s0 = STerminating) \/
+     (pc x = IPreLaunch /\ pc x' = IStateSet /\ l_done x' = l_done x /\ s0 = SRunning) \/
+     (exists c, pc x = IWillRestart c /\ pc x' = IRestarting c /\ l_done x' = l_done x /\ s0 = SRestarting) \/
+     (exists c, pc x = IInEnd s0 c false /\ pc x' = IInEnd s0 c true /\ l_done x' = true)).
+Proof.
+  intros H Hx. unfold step_state in H. rewrite Hx in H.
+  break_step H; subst s'; split_andb;
+  repeat match goal with E : status_eqb _ _ = true |- _ => apply status_eqb_eq in E; subst end.
+  all: unfold set_pc, end_finish, write_status; autorewrite with sup;
+       repeat match goal with |- context[if ?b then _ else _] => is_var b; destruct b end; autorewrite with sup;
+       rewrite ?N.eqb_refl, ?Hx; cbn; eexists; (split; [reflexivity|]); cbn; repeat (split; [reflexivity|]).
+  all: try (left; repeat split; auto; try discriminate; try (intros _; destruct (pc x); try discriminate; eauto); fail).
+  all: try (right; left; repeat split; auto; fail).
+  all: try (right; right; left; repeat split; auto; fail).
+  all: try (right; right; right; left; eexists; repeat split; auto; fail).
+  all: try (right; right; right; right; eexists; repeat split; auto; fail).
+Qed.
+
+Lemma obs_csame_state o th i s0 : obs_csame o (obs_pre cs o (th, EState i s0)).
+Proof.
+  cbn [obs_pre fst snd]. cbv zeta.
+  eapply obs_csame_trans; [|apply obs_csame_oi_upd; intros x; destruct (opt_eqb _ _ _); repeat split; auto].
+  eapply obs_csame_trans; [|apply obs_csame_on_upd].
+  destruct (_ && _); [apply obs_csame_eq; reflexivity|apply obs_csame_refl].
+Qed.
+
+Lemma nl_of x : badpc (pc x) = false -> l_runctx x = true -> nl x = true.
+Proof. unfold nl, badpc. intros Hb Hr. destruct (pc x); cbn in *; auto; discriminate. Qed.
+
+Lemma lc_not_gone p : lcpc p = true -> gonepc p = false.
+Proof. destruct p; cbn; auto; discriminate. Qed.
+
+Lemma c_inst_state s o th i s0 s' : Rc cs s o -> Inv s o -> pend (get_thread s th) = None ->
+  step_state s th i s0 = Some s' -> c_inst s' (obs_pre cs o (th, EState i s0)).
+Proof.
+  intros HRc HI Hpn H j x' xo' Hx' Hxo'.
+  destruct (ocsame_bwd _ _ _ _ (obs_csame_state o th i s0) Hxo') as (xo & Hxo & (Oa & Oc & Og & _)).
+  destruct (state_effect _ _ _ _ _ H) as (x & Hx & Hoth & Hvoth & Hvn & _).
+  destruct (N.eq_dec j i) as [->|Hne].
+  - destruct (state_inst _ _ _ _ _ _ H Hx) as (x2 & Hx2 & En & Ea & Ee & Er & Hcase).
+    assert (x2 = x') by congruence. subst x2.
+    destruct (iv_inst _ _ HI i x xo Hx Hxo) as [A B C D E_ F G I0].
+    assert (Hlc : lcpc (pc x') = true -> status_eqb s0 SPending = false ->
+                  forall v, get (nm x') (viss s') = Some v -> status_eqb (st v) SPending = false).
+    { intros _ Hs v Hv. rewrite En in Hv. now rewrite (Hvn v Hv). }
+    destruct Hcase as [(Ep & Ed & Hpe & Hs0)|[(Ep & Ed & Hsp & ->)|[(Ep & Ep' & Ed & ->)|[(c & Ep & Ep' & Ed & ->)|(c & Ep & Ep' & Ed)]]]].
+    + constructor; rewrite ?Ep, ?Ea, ?Ee, ?Ed, ?Oa, ?Oc, ?Og; auto.
+      * intros Hd. rewrite <- (G Hd). unfold nl. now rewrite Ep, Er.
+      * intros Hl. destruct Hs0 as [->| ->]; [|apply Hlc; [now rewrite Ep|reflexivity]].
+        destruct (Hpe eq_refl) as (t & Hpt). rewrite Hpt in Hl. discriminate.
+    + constructor; rewrite ?Ep, ?Ea, ?Ee, ?Oa, ?Oc, ?Og; auto.
+      * intros _. destruct (iv_pend _ _ HI th i (or_intror Hsp)) as (y & Hy & _ & Hb & Hp).
+        assert (y = x) by congruence. subst y. apply nl_of; [now rewrite Ep|]. rewrite Er.
+        destruct (Hp Hsp) as [Hp'|Hp']; [congruence|exact Hp'].
+      * intros Hl. apply Hlc; [now rewrite Ep|reflexivity].
+    + unfold nl in G. rewrite Ep in *. cbn in *. constructor; rewrite ?Ep', ?Ea, ?Ee, ?Ed, ?Oa, ?Oc, ?Og; cbn; auto.
+      * intros Hd. specialize (G Hd). discriminate.
+      * intros Hl. apply Hlc; [now rewrite Ep'|reflexivity].
+    + unfold nl in G. rewrite Ep in *. cbn in *. constructor; rewrite ?Ep', ?Ea, ?Ee, ?Ed, ?Oa, ?Oc, ?Og; cbn; auto.
+      * intros Hd. specialize (G Hd). discriminate.
+      * intros Hl. apply Hlc; [now rewrite Ep'|reflexivity].
+    + unfold nl in G. rewrite Ep in *. cbn in *. constructor; rewrite ?Ep', ?Ea, ?Ee, ?Oa, ?Oc, ?Og; cbn; auto.
+      * unfold nl. rewrite Ep'. reflexivity.
+      * discriminate.
+  - rewrite (Hoth j Hne) in Hx'. destruct (iv_inst _ _ HI j x' xo Hx' Hxo) as [A B C D E_ F G I0].
+    constructor; rewrite ?Oa, ?Oc, ?Og; auto.
+    intros Hl v Hv. destruct (N.eq_dec (nm x') (nm x)) as [En|Hnn].
+    + rewrite En in Hv. rewrite (Hvn v Hv). destruct (status_eqb s0 SPending) eqn:Hs; [|reflexivity]. exfalso.
+      apply status_eqb_eq in Hs. subst s0.
+      destruct (state_inst _ _ _ _ _ _ H Hx) as (x2 & _ & _ & _ & _ & _ & Hcase).
+      assert (Hdeps : exists t, pc x = IDeps t).
+      { destruct Hcase as [(_ & _ & Hpe & _)|[(_ & _ & _ & Hc)|[(_ & _ & _ & Hc)|[(c & _ & _ & _ & Hc)|(c & Ep & _)]]]]; try discriminate Hc; auto.
+        exfalso. destruct (rc_inst _ _ _ HRc i x Hx) as (xo2 & Hxo2 & _).
+        pose proof (pi_end _ _ _ (iv_inst _ _ HI i x xo2 Hx Hxo2)) as Fe. rewrite Ep in Fe. discriminate. }
+      destruct Hdeps as (t & Hpt).
+      destruct (iv_name _ _ HI j i x' x Hx' Hx Hne En) as [Gg|Gg].
+      * rewrite (lc_not_gone _ Hl) in Gg. discriminate.
+      * rewrite Hpt in Gg. discriminate.
+    + rewrite (Hvoth _ Hnn) in Hv. eauto.
+Qed.
 (*STOP*)
 End RelC03.
